@@ -103,6 +103,11 @@ CLAIMED = {
    note=TB + 'Values are modelled as a universal tree with Z atoms; maps and sets are kept canonical (sorted); derived PartialEq = structural equality; Clone = identity. Shapes are limited to the generator\'s grammar (depth <= 2).',
    technique='Coq proof (keyed fold lemma, loop specification, closed form of apply) + differential execution on recursive-map shapes',
    design='5/C13'),
+ 'C08': dict(
+   text="Machine-checked proofs (Coq): (1) script_exec_list_semantics — for EVERY script that is well-formed against plain-list semantics (each index in range when used; replace/insert-before/single delete/inclusive ranged delete/swap in any index order, of any length), building the rope from the list, applying one rope operation per change and iterating yields exactly the list result (corollary of the C09 refinement); (2) codec round trips for both wire formats — nanoserde (hand-written impls, the three discriminant tables translated from /repo, side conditions 'tables agree, pairwise distinct, fit in u8' re-proved by computation; lenient Option tag of the dependency reproduced) and bincode-of-serde (u32 variant index, strict Option tag), element codec i64 proved lawful: decoding what the encoder wrote returns the script and re-encoding reproduces the bytes; the borrowed encoder equals the owned one. Tie: scripts ENCODED BY THE MODEL are decoded, executed through /repo's rope and re-encoded by /repo; corrupted/truncated byte streams are decoded by both; real diffs go through both codecs in /repo alone.",
+   note=TB + "Re-encoding is proved for bytes in the encoder's image; for arbitrary bytes nanoserde (the dependency) decodes any Option tag != 1 as None, so 'for all decodable bytes' is false of the dependency and not claimed. nanoserde / serde_derive / bincode 1.3 (fixint LE, u64 lengths, u32 variant index) are modelled, not verified. A length prefix of 2^60 makes the dependency abort on allocation; such streams are not generated.",
+   technique="Coq proof (prefix-law codec combinators; rope refinement corollary) + translator for discriminants + byte-level differential execution",
+   design="5/C08"),
 }
 NA_REASON = "check not wired into the manifest yet at this commit (build in progress; see DESIGN.md section 5 for the planned theorem and tie)"
 
